@@ -188,10 +188,11 @@ where CL03<CS>: Scheme<PubKey = CL03PublicKey, PrivKey = CL03SecretKey>, CS::Has
                 for (pn, x) in [("a-1", a.clone() - 1u32), ("b+1", b.clone() + 1u32), ("a-2^31", a.clone() - pow2(31)), ("b+2^64", b.clone() + pow2(64))] {
                     // a prover that does not decompose at all: E_x_1 := commitment to the whole (negative) side value, rest 0, and a
                     // proof of square that is about some other commitment (to 1^2)
-                    if env.ctx.state(&[r.id.as_bytes(), pn.as_bytes(), b"unbound-square"]) {
+                    for (ua, ub, which) in [(true, true, "both sides"), (true, false, "lower side only"), (false, true, "upper side only")] {
+                        if !env.ctx.state(&[r.id.as_bytes(), pn.as_bytes(), b"unbound-square", which.as_bytes()]) { continue; }
                         let rr = rnd(pn); let e = commit(&x, &rr, g, h, n).value;
-                        let forged = mccore::guard_val(|| adaptive::forge_unbound_square::<CS::HashAlg>(&x, &rr, &e, g, h, n, &a, &b)); env.ctx.step();
-                        match forged { O::Ok(Some(p)) => { expect_bool(env, &r.id, &format!("verify(proof for x = {} whose proofs of square are about other commitments)", pn), &verify(&p, g, h, n, &a, &b), false, true, "unbound-square-out-of-range", json!({"base": det0, "point": pn})); env.ctx.class("unbound-square:proof-judged"); }
+                        let forged = mccore::guard_val(|| adaptive::forge_unbound_square::<CS::HashAlg>(&x, &rr, &e, g, h, n, &a, &b, ua, ub)); env.ctx.step();
+                        match forged { O::Ok(Some(p)) => { expect_bool(env, &r.id, &format!("verify(proof for x = {} whose proof of square is about another commitment on {})", pn, which), &verify(&p, g, h, n, &a, &b), false, true, "unbound-square-out-of-range", json!({"base": det0, "point": pn, "unbound": which})); env.ctx.class("unbound-square:proof-judged"); }
                                        _ => env.ctx.class("unbound-square:no-proof") }
                         env.ctx.trace();
                     }
@@ -315,7 +316,7 @@ mod adaptive {
     /// No decomposition: E_x_1 commits to the whole side value (negative for an out-of-range x), the rest is 0 (so the honest
     /// larger-interval proof for 0 passes), and the proofs of square are honest proofs about a DIFFERENT commitment (to 1^2).
     #[allow(clippy::too_many_arguments)]
-    pub fn forge_unbound_square<H: sha2::Digest>(x: &Integer, r: &Integer, e: &Integer, g: &Integer, h: &Integer, n: &Integer, a: &Integer, b: &Integer) -> Option<RP> {
+    pub fn forge_unbound_square<H: sha2::Digest>(x: &Integer, r: &Integer, e: &Integer, g: &Integer, h: &Integer, n: &Integer, a: &Integer, b: &Integer, unbound_a: bool, unbound_b: bool) -> Option<RP> {
         let big_t = 2 * (T_ + L_ + 1) + (b - a).complete().significant_bits();
         let (aa, bb) = (two(big_t) * a, two(big_t) * b);
         let root = (&bb - &aa).complete().sqrt();
@@ -328,10 +329,14 @@ mod adaptive {
         let (xa, xb) = ((&xp - &aa).complete(), (&bb - &xp).complete());
         let ra1 = sym(&(two(S_ + big_t) * n)); let ra2 = (&rp - &ra1).complete();
         let rb1 = sym(&(two(S_ + big_t) * n)); let rb2 = -rp.clone() - &rb1;
-        let (ea1, ea2) = (com(g, &xa, h, &ra1, n), com(g, &Integer::from(0), h, &ra2, n));
-        let (eb1, eb2) = (com(g, &xb, h, &rb1, n), com(g, &Integer::from(0), h, &rb2, n));
+        // per side: unbound = E_x_1 commits to the whole side value and the rest is 0; otherwise the honest decomposition
+        let split = |xs: &Integer, unbound: bool| -> Option<(Integer, Integer, Integer)> { if unbound { Some((xs.clone(), Integer::from(0), Integer::from(1))) } else { if *xs < 0 { return None; } let y = xs.clone().sqrt(); Some((y.clone() * &y, xs.clone() - y.clone() * &y, y)) } };
+        let (va1, va2, ya) = split(&xa, unbound_a)?;
+        let (vb1, vb2, yb) = split(&xb, unbound_b)?;
+        let (ea1, ea2) = (com(g, &va1, h, &ra1, n), com(g, &va2, h, &ra2, n));
+        let (eb1, eb2) = (com(g, &vb1, h, &rb1, n), com(g, &vb2, h, &rb2, n));
         // honest larger-interval proofs for the rest 0 (challenge format of the repaired library)
-        let li = |r2: &Integer, e2: &Integer| -> Option<Value> {
+        let li = |x2: &Integer, r2: &Integer, e2: &Integer| -> Option<Value> {
             let top: Integer = two(T_ + L_) * b_rest.clone() - Integer::from(1);
             for _ in 0..64 {
                 let w = rand_int(Integer::from(0), top.clone());
@@ -339,7 +344,8 @@ mod adaptive {
                 let omega = com(g, &w, h, &nu, n);
                 let big_c = hash::<H>(omega.to_string() + &e2.to_string() + &ctx);
                 let c = Integer::from(&big_c % two(T_));
-                if c.clone() * &b_rest <= w && w <= top { return Some(json!({"C": int_leaf(&big_c), "D_1": int_leaf(&w), "D_2": int_leaf(&(nu + &c * r2))})); }
+                let d1 = w.clone() + (&c * x2).complete();
+                if c.clone() * &b_rest <= d1 && d1 <= top { return Some(json!({"C": int_leaf(&big_c), "D_1": int_leaf(&d1), "D_2": int_leaf(&(nu + &c * r2))})); }
             }
             None
         };
@@ -347,12 +353,14 @@ mod adaptive {
         let one = Integer::from(1);
         let (rs_a, rs_b) = (sym(&(two(S_) * n)), sym(&(two(S_) * n)));
         let (sq_a, sq_b) = (com(g, &one, h, &rs_a, n), com(g, &one, h, &rs_b, n));
+        let psq_a = if unbound_a { square::<H>(&one, &rs_a, &sq_a, &ctx, g, h, n, &bsq, s2, false) } else { square::<H>(&ya, &ra1, &ea1, &ctx, g, h, n, &bsq, s2, false) };
+        let psq_b = if unbound_b { square::<H>(&one, &rs_b, &sq_b, &ctx, g, h, n, &bsq, s2, false) } else { square::<H>(&yb, &rb1, &eb1, &ctx, g, h, n, &bsq, s2, false) };
         let j = json!({
             "proof_of_tolerance": {
                 "E_a_1": int_leaf(&ea1), "E_a_2": int_leaf(&ea2), "E_b_1": int_leaf(&eb1), "E_b_2": int_leaf(&eb2),
-                "proof_of_square_a": square::<H>(&one, &rs_a, &sq_a, &ctx, g, h, n, &bsq, s2, false),
-                "proof_of_square_b": square::<H>(&one, &rs_b, &sq_b, &ctx, g, h, n, &bsq, s2, false),
-                "proof_large_i_a": li(&ra2, &ea2)?, "proof_large_i_b": li(&rb2, &eb2)?,
+                "proof_of_square_a": psq_a,
+                "proof_of_square_b": psq_b,
+                "proof_large_i_a": li(&va2, &ra2, &ea2)?, "proof_large_i_b": li(&vb2, &rb2, &eb2)?,
             },
             "E_prime": int_leaf(&e_prime), "E": int_leaf(e),
         });
